@@ -338,11 +338,11 @@ Theorem C10_ex_gen_wire_run :
   /\ wire_act C10_ex_loss w2 (WGet (Some 0) None) = Some (w, [OLost (C10_pk 2)])
   (* conclusions *)
   /\ wire_act C10_ex_loss (wire0 0) WInit
-     = wire_run_step (set_started (wire0 0)) None (wire_gen_init C10_ex_loss (wire0 0) 0 false true 0 0)
+     = wire_run_step (set_started (wire0 0)) None 0 (wire_gen_init C10_ex_loss (wire0 0) 0 false true 0 0)
   /\ wire_act C10_ex_loss (wire0 0) WInit <> None
   /\ g = ([FxUniform; FxDelayDist], NxYield (RqTimeout (3 - (2 - 1))) PP2)
   /\ wire_act C10_ex_loss w (WGet (consumed is_uniform (fst g) (3 # 4)) (consumed is_delay (fst g) 3))
-     = wire_run_step (with_q w (C10_rest w)) (Some (C10_pk 3)) g
+     = wire_run_step (with_q w (C10_rest w)) (Some (C10_pk 3)) (3 - (wnow w - 1)) g
   /\ (Some (3 # 4) = consumed is_uniform (fst g) (3 # 4) /\ Some 3 = consumed is_delay (fst g) 3)
   /\ g2 = ([FxUniform], NxYield RqStoreGet PP1)
   /\ (Some 0 = consumed is_uniform (fst g2) 0 /\ None = consumed is_delay (fst g2) 0).
